@@ -24,7 +24,8 @@ fixed("D36", "C16", "c23ba4a", "CREATE TABLE with PRIMARY KEY and UNIQUE aborted
 # ---- open findings: E1 (history simulator) ----
 for prop in ("C03", "C04"):
     open_("D5", prop, "UPDATE inside an open transaction is visible to other transactions at once (and survives ROLLBACK)", "O-res", "update_inside_session", "findings/D5-update-in-session-visible-to-others.json")
-    open_("D27", prop, "a DELETE is silently skipped when another transaction's delete of the row is pending or was rolled back", "O-state", "history_contains_delete", "findings/D27-delete-skipped-when-another-delete-pending.json")
+    open_("D27", prop, "a DELETE is silently skipped (and reports the row as deleted) while another transaction's delete of the row is pending: no write-write conflict is raised; if the other transaction then rolls back the row survives both", "O-state", "concurrent_writers_same_row", "findings/D27-delete-skipped-when-another-delete-pending.json")
+    fixed("D27b", prop, "2194af4", "a DELETE was silently skipped when another transaction's delete of the row had been rolled back (the stale mark made Tuple::delete return early); index entries likewise, so a UNIQUE key stayed blocked", "O-res", "findings/D27b-delete-after-rolled-back-delete-is-skipped.json")
 open_("D6", "C03", "DROP TABLE inside a session destroys the table before commit (tree deallocated at statement time)", "O-state", "drop_table_inside_session", "findings/D6-drop-table-in-session-destroys-table.json")
 open_("D23", "C03", "in a session a multi-row INSERT whose 2nd row violates a constraint leaves the 1st row; COMMIT publishes it", "O-state", "failing_multi_row_insert_in_session", "findings/D23-failed-multi-row-insert-leaves-rows.json")
 open_("D7", "C03", "any UPDATE of a table that has a PRIMARY KEY / UNIQUE index fails with 'datatype mismatch ... BigUInt'", "O-res", "history_contains_update", "findings/D7-update-on-table-with-unique-index.json")
@@ -44,7 +45,7 @@ for prop in ("C07",):
     open_("F1", prop, "INSERT of NULL into a PRIMARY KEY/UNIQUE column fails only after the row was stored: the row stays and a later committed insert is lost", "O-state", "null_into_unique_column", "findings/F1-null-into-unique-column-leaves-row.json")
 
 # ---- open findings: VACUUM (C13) ----
-open_("D14", "C13", "VACUUM removes a row whose DELETE was rolled back (or was still pending: VACUUM aborts it)", "O-state", "vacuum_after_rolled_back_delete", "findings/D14-vacuum-removes-row-whose-delete-was-rolled-back.json")
+fixed("D14", "C13", "cc4fedb", "VACUUM removed a row whose DELETE had been rolled back (or was still pending: VACUUM aborts it)", "O-state", "findings/D14-vacuum-removes-row-whose-delete-was-rolled-back.json")
 open_("D29", "C13", "CREATE TABLE after a VACUUM panics (types/core.rs:341) and kills the worker", "O-res", "ddl_after_vacuum", "findings/D29-create-table-after-vacuum-panics.json")
 open_("D29b", "C13", "with two tables in the catalog, inserts after a VACUUM panic (types/core.rs:341)", "O-res", "vacuum_with_more_than_one_table", "findings/D29b-insert-after-vacuum-with-two-tables-panics.json")
 open_("D29c", "C13", "UPDATE, VACUUM, UPDATE leaves the table unreadable ('btree page not found: 0')", "O-res", "vacuum_of_updated_rows", "findings/D29c-update-vacuum-update-loses-table.json")
